@@ -10,6 +10,7 @@ that pull the *real* text of items out of /repo at check time:
   //@fn <relpath> :: <item path>              verbatim function (E2) with ghost insertions (E4):
   //@  attr <text>                              attribute line placed before the fn (ghost attrs only)
   //@  ret <ident>                              name the return value
+  //@  id <label>                               label used in obligation ids instead of the fn name (same-named methods of two impls)
   //@  requires | ensures | decreases           clause lines follow, one clause ends at a line ending in ','
   //@  loop <n> iter <ident>                    name the ghost iterator of the n-th loop (a `for`)
   //@  loop <n> invariant | invariant_except_break | ensures | decreases     clause lines follow
@@ -242,7 +243,7 @@ class Weaver:
             it = self.locate(rel, path)
             self.rules.append({'rule': 'R2 helper inlining: %d call(s) of %s replaced by a block binding its parameters around its body' % (ncalls, hname), 'fn': it.name, 'loop': 0})
         raw = s[it.start:it.end]
-        fname = d.get('as') or it.name
+        fname = d.get('id') or d.get('as') or it.name      # `id`: label used in obligation ids only (two impls with equally named methods)
         info = FnInfo(fname, path, rel, _line_of(s, it.start), hashlib.sha256(raw.encode()).hexdigest()[:16])
         header = s[it.start:it.header_end]
         # E3 on the header: drop visibility (re-added as pub)
@@ -263,6 +264,13 @@ class Weaver:
             header = header[:arrow] + '-> (' + ret + ': ' + ty + ')' + (' ' + header[tend:] if wh else ' ')
         if d.get('as'):
             header = re.sub(r'\bfn\s+' + re.escape(it.name) + r'\b', 'fn ' + d['as'], header, count=1)
+        # R5: `fn f(mut self, ..) { BODY }`  ==>  `fn f(self, ..) { let mut __self = self; BODY[self := __self] }`
+        # (Verus has no `mut self` parameters; the binding mode of a by-value parameter is local to the body)
+        mut_self = bool(re.search(r'\(\s*mut\s+self\b', header))
+        if mut_self:
+            header = re.sub(r'\(\s*mut\s+self\b', '(self', header, count=1)
+            self.rules.append({'rule': 'R5 mut-self parameter rebound as a local', 'fn': fname, 'loop': 0})
+            info.rules.append('R5')
         for a in d.get('attr', []):
             self.emit(a + '\n', {'k': 'ghost', 'fn': fname, 'what': 'attr'})
         self.emit(vis + header.rstrip() + '\n', {'k': 'repo', 'file': rel, 'line': info.repo_line, 'fn': fname, 'what': 'signature'})
@@ -283,7 +291,7 @@ class Weaver:
         if want_loops and not body_loops and self.loopless_ok:
             # R4: the loop went away (moved into a helper, replaced by a field read, ...): loop invariants are proof aids, the
             # function contract stays as it is and is what gets checked
-            self.rules.append({'rule': 'R4 loop clauses dropped: the function has no loop any more', 'fn': fname, 'dropped_loops': want_loops})
+            self.rules.append({'rule': 'R4 loop clauses dropped: the function has no loop any more', 'fn': fname, 'loop': 0, 'dropped_loops': want_loops})
             info.rules.append('R4')
             d = dict(d); d['loops'] = {}; d['at_loop'] = {}
             want_loops = []
@@ -296,6 +304,8 @@ class Weaver:
         def add(off, order, text, origin):
             ins.append((off, order, text, origin))
 
+        if mut_self:
+            add(lo, -1, ' let mut __self = self;', {'k': 'ghost', 'fn': fname, 'what': 'R5'})
         if d.get('at', {}).get('body-start') or self.canary:
             txt = ''
             if self.canary:
@@ -408,15 +418,24 @@ class Weaver:
         end = it.end
         ii = 0
 
+        def r5(a, b):
+            if not mut_self:
+                return s[a:b]
+            out, last = [], a
+            for mm in re.finditer(r'\bself\b', m[a:b]):      # m: comments and string literals blanked
+                out.append(s[last:a + mm.start()]); out.append('__self'); last = a + mm.end()
+            out.append(s[last:b])
+            return ''.join(out)
+
         def emit_repo(a, b):
             # honour cuts
             while a < b:
                 cut = next(((c0, c1) for (c0, c1) in sorted(cuts) if c0 >= a and c0 < b), None)
                 if cut is None:
-                    self.emit(s[a:b], {'k': 'repo', 'file': rel, 'line': _line_of(s, a), 'fn': fname})
+                    self.emit(r5(a, b), {'k': 'repo', 'file': rel, 'line': _line_of(s, a), 'fn': fname})
                     return
                 if cut[0] > a:
-                    self.emit(s[a:cut[0]], {'k': 'repo', 'file': rel, 'line': _line_of(s, a), 'fn': fname})
+                    self.emit(r5(a, cut[0]), {'k': 'repo', 'file': rel, 'line': _line_of(s, a), 'fn': fname})
                 a = cut[1]
                 cuts.remove(cut)
 
@@ -498,6 +517,8 @@ class Weaver:
                             d['ret'] = tok[1]
                         elif tok[0] == 'as':
                             d['as'] = tok[1]
+                        elif tok[0] == 'id':
+                            d['id'] = tok[1]
                         elif tok[0] == 'novis':
                             d['novis'] = True
                         elif tok[0] == 'attr':
